@@ -210,7 +210,11 @@ def lex_out(text):
         return {'k': 'sep', 'gap': dec4(m.group('gap'))}
     m = JUNK.fullmatch(s)
     if m:
-        return {'k': 'junk', 'text': m.group('text')}
+        # the passed-through text is compared as it is: escape sequences of the *input* are part of it
+        # (the tool's own leading reset, when it writes with colour, is not)
+        raw = text[len('\x1b[0m'):] if text.startswith('\x1b[0m') else text
+        mr = JUNK.fullmatch(raw)
+        return {'k': 'junk', 'text': (mr or m).group('text')}
     if s.startswith('    Stopped at '):
         b = lex_message_body(s[len('    Stopped at '):])
         if b is not None:
